@@ -445,6 +445,9 @@ LITERAL_TEXT_OPS = {
     "<&'a str as nom::Slice<std::ops::Range<usize>>>::slice": "drop the ONE escaping backslash (0..len-1)",
     "core::str::traits::<impl std::ops::Index<I> for str>::index": "drop the ONE escaping backslash (0..len-1)",
     "core::str::<impl str>::len": "operand of len-1",
+    "core::str::<impl str>::strip_suffix": "drop the ONE escaping backslash (strip_suffix removes a single occurrence)",
+    "core::str::<impl str>::ends_with": "the escape test",
+    "core::str::<impl str>::is_empty": "the escape test",
     "<std::result::Result<T, E> as std::ops::Try>::branch": "error propagation of the nom parser",
     "nom::bytes::complete::take_while": "up to the delimiter", "nom::bytes::complete::take_while::{closure#0}": "up to the delimiter",
     "nom::bytes::complete::is_not": "up to the delimiter", "nom::bytes::complete::is_not::{closure#0}": "up to the delimiter",
